@@ -201,7 +201,8 @@ def step_job(name, check, nreq=2, nsvc=2, events=STEP_EVENTS, extra=None):
     d = {"NREQ": nreq, "NSVC": nsvc, check: None}
     if extra:
         d.update(extra)
-    return {"name": name, "src": ["C_step.c"] + IAUTH, "defs": {"all": d},
+    # thorough: longer symbolic strings in the pre-state, in event arguments and in the password
+    return {"name": name, "src": ["C_step.c"] + IAUTH, "defs": {"all": d, "thorough": {"KSTR": 5, "LARG": 6, "LPW": 12}},
             "splits": {"all": [{e: None} for e in events]},
             "unwind": 800, "unwindset": STEP_UNWINDSET, "fp_restrict": FP_IAUTH,
             "flags": ["--sat-solver", "cadical"], "timeout": 900}
@@ -288,17 +289,14 @@ def _line_splits(thorough):
         # argument pointer into the freed first line is then a small, quickly refuted formula
         add("pair_U_%s" % c2, "7 U x y z", None, VP_TMPL2='"7 c"', VP_CMD2="'%s'" % c2, VP_ID_LIVE=None)
     if thorough:
-        for c in cmds:
-            n = nm.get(c, c)
-            add("one_%s" % n, "7 c a", c, VP_ID_LIVE=None)
-            add("four_%s" % n, "7 c a a a a", c, VP_ID_LIVE=None)
-            add("tabs_%s" % n, "7  c\\ta  a", c, VP_ID_LIVE=None)
-        add("sym_cmd", "7 c a", None, VP_ID_LIVE=None)                # command letter symbolic: all handlers in one formula
+        add("tabs_N", "7  c\\ta  a", "N", VP_ID_LIVE=None)
+        add("four_U", "7 c a a a a", "U", VP_ID_LIVE=None)
+        add("one_P", "7 c a", "P", VP_ID_LIVE=None)
         add("colon_first", ":7 N a", None)
         add("plus_id", "+7 N a", None)
         add("long_arg", "7 N aaaaaaaaaaaaaaaaaaaaaaaaaaaaaaaaaaaaaaaaaaaaaaaaaaaaaaaaa", None, VP_ID_LIVE=None)
-        for c2 in "uHT":
-            add("pair_X_%s" % c2, "-1 X a a a a", None, VP_TMPL2='"7 c a"', VP_CMD2="'%s'" % c2)
+        for c2 in "uH":
+            add("pair_X_%s" % c2, "-1 X a b c d", None, VP_TMPL2='"7 c a"', VP_CMD2="'%s'" % c2)
     return out
 
 
@@ -332,8 +330,9 @@ def _fmt_job_splits():
 
 
 RECIPES["C09"] = {
-    "units": ["modules/iauth_core.c"],
+    "units": ["modules/iauth_core.c", "modules/iauth_misc.c"],
     "jobs": [
+        step_job("announce", "CHECK_C09", events=["EV_C"]),
         {"name": "fmt", "src": ["C09_fmt.c"] + IAUTH, "gen": _gen_formats.gen,
          "defs": {"quick": {"LSTR": 2, "LADDR": 3}, "thorough": {"LSTR": 5, "LADDR": 15}},
          "splits": {"all": _fmt_job_splits()},
@@ -672,3 +671,8 @@ for _k, (_lt, _ln) in META.items():
 NOT_APPLICABLE["C20"] = ("the property quantifies over the dependency GRAPH, which is the shape of the module table: with the dependency matrix symbolic, symbolic execution of "
                          "module_load<->constructor<->module_depends does not finish (25 min, 3 modules); with the matrix enumerated nothing symbolic remains and the run would be a test, not a solver verdict (DESIGN A6)")
 RECIPES["C20"]["na_reason"] = NOT_APPLICABLE["C20"]
+
+RECIPES["C16"]["jobs"].append(
+    {"name": "typed_delivery", "src": ["C15_node.c"] + CONFIG_TU, "gen": _gen_shim.gen,
+     "splits": {"all": [{"_name": "int_r1%d%d" % (a, b), "K_TYPED": None, "REG": 1, "IN0": a, "IN1": b} for a in (0, 1) for b in (0, 1) if a or b]},
+     "unwind": 6, "unwindset": CONFIG_UW + ["strtoul.0:6", "strtoul.1:6", "memcmp.0:10", "memcpy.0:10"], "fp_restrict": FP_CONFIG, "timeout": 900})
